@@ -332,6 +332,14 @@ func c02Main(args []string) error {
 			if err != nil {
 				return fmt.Errorf("Compute: %v", err)
 			}
+			// the plain evaluator, too, reads a negative number as its two's complement bits (C01: "the library's own
+			// plain evaluator returns those same bits")
+			if len(circ.Inputs[0].Compound) == 0 && len(circ.Inputs[1].Compound) == 0 && (xin != x || yin != y) {
+				w2, err := circ.Compute([]*big.Int{xin, yin})
+				if err != nil || !sameBigs(w2, want) {
+					res.viol("compute:negative-representation", "program %d: Compute(%v, %v) = %v (%v), Compute(%v, %v) = %v: the same input bits", i%len(c02Programs), xin, yin, w2, err, x, y, want)
+				}
+			}
 			k := kinds[i%4]
 			if k == "rsa" && n1 > 200 {
 				k = "cotm"
